@@ -27,6 +27,16 @@ has a witness program in corpus/lmmx/findings and is reported by checks/lmmx_par
 Classes that are NOT avoided but recognised by predicates of lmmx.known_classes (the backend concerned is exempt only when
 it actually deviates): W5 PROJ W7 W9 (WASM), V1 (VM), X4 (dynamic, WASM).  One program in 8 keeps projections in the
 positions of class PROJ (the others get `+ 0.0` there), one in 8 may create stateful instances while dsp runs.
+
+SUM TYPES, MATCH, WIDE SELF.  About half of the programs declare one or two sum types (constructors without payload, with a
+number, with a (nested) tuple of numbers); values of these types are let-bound, passed, returned, stored in tuples and fed
+back through `self`; `match` is generated on numbers (integer literal arms + `_`), on sum values (constructor arms with
+payload binders, exhaustive or with `_`) and on tuples of numbers / sum values (tuple patterns + `_`), with stateful arms.
+Functions and lambdas whose return type is a tuple / record / sum / nested data type use `self` at that type.
+  R8  the arms of a match are generated so that the compiler's selection (switch on the literal / tag arms with the first `_`
+      as default; decision tree for tuple patterns) agrees with first-match order, and an arm that the decision tree
+      compiles more than once is stateless; one match in ten is left as generated (classes M1 M2 M3 of lmmx.known_classes:
+      a backend is exempt only when it deviates).
 """
 from lmmx import *
 
@@ -36,6 +46,17 @@ F = 'F'
 def T(*ts): return ('T', list(ts))
 def R(*fs): return ('R', list(fs))
 def Fn(ps, r): return ('Fn', list(ps), r)
+def S(tid): return ('S', tid)
+
+
+def is_data(t):
+    """a first-order data type: numbers, tuples / records of data, declared sums"""
+    if t == F: return True
+    if isinstance(t, tuple):
+        if t[0] == 'T': return all(is_data(x) for x in t[1])
+        if t[0] == 'R': return all(is_data(x) for _, x in t[1])
+        if t[0] == 'S': return True
+    return False
 
 
 class Var:
@@ -62,18 +83,41 @@ class Scope:
     def child(self, **kw):
         s = Scope(list(self.vars), self.funs, self.depth, self.self_ok, self.state_ok, self.lam_state_ok, self.phase)
         s.parent = self
+        s.self_ty = getattr(self, 'self_ty', None)
         for k, v in kw.items():
             setattr(s, k, v)
         return s
 
 
 class XGen:
-    def __init__(self, rng, depth=3, dyn=False):
+    def __init__(self, rng, depth=3, dyn=False, ext=True):
         self.rng = rng
         self.depth = depth
         self.dyn = dyn
+        self.ext = ext            # sum types, match, wide self (False: the language of the first version of this generator)
         self.next_id = 10
         self.cur_delay = None
+        self.sumtys = {}          # tid -> [payload type | None]
+        self.funs_of_prog = []
+
+    # ---- sum types -----------------------------------------------------------------------------------------
+    def declare_sum(self):
+        r = self.rng
+        tid = self.fresh()
+        n = r.choice([2, 2, 3, 3, 4])
+        pay = [r.choice([None, None, F, F, T(F, F), T(F, F), T(F, T(F, F)), T(F, F, F)]) for _ in range(n)]
+        self.sumtys[tid] = pay
+        return tid
+
+    def shape_of(self, t):
+        if t == F: return 'N'
+        if t[0] == 'T': return ('st', [self.shape_of(x) for x in t[1]])
+        if t[0] == 'R': return ('sr', [(f, self.shape_of(x)) for f, x in t[1]])
+        if t[0] == 'S': return ('ss', t[1], [None if x is None else self.shape_of(x) for x in self.sumtys[t[1]]])
+        raise ValueError(t)
+
+    def sum_ty(self):
+        return S(self.rng.choice(sorted(self.sumtys)))
 
     def fresh(self):
         self.next_id += 1
@@ -85,12 +129,16 @@ class XGen:
         sigs = getattr(self, 'known_sigs', [])
         if sigs and r.chance(1, 2):
             return r.choice(sigs)
+        if self.ext and r.chance(1, 8):
+            # a closure with a wide feedback value
+            return Fn([F] * r.choice([0, 1, 1]), r.choice([T(F, F), T(F, F), R((0, F), (2, F))] + ([self.sum_ty()] if self.sumtys else [])))
         return Fn([F] * r.choice([0, 1, 1, 1, 2]), F)
 
     def value_ty(self, d=1):
         """type of a let-bound / passed value"""
         r = self.rng
         c = r.below(12)
+        if self.sumtys and r.chance(1, 6): return self.sum_ty()
         if c < 6 or d <= 0: return F
         if c < 8: return T(*[self.value_ty(d - 1) if r.chance(1, 4) else F for _ in range(r.choice([2, 2, 3]))])
         if c < 10:
@@ -117,6 +165,8 @@ class XGen:
         # R2 (reading side): an assigned local is mentioned only by its frame and by directly nested lambdas
         if v.mutable and v.kind == 'local' and sc.depth - v.depth > 1:
             return False
+        if getattr(v, 'no_capture', False) and sc.depth > v.depth:
+            return False              # R10: a payload binder of a TUPLE match is not captured by a lambda (finding W11)
         return True
 
     def note_use(self, sc, v):
@@ -161,7 +211,168 @@ class XGen:
         if ty == F: return self.exprF(sc, d)
         if ty[0] == 'T': return self.exprT(sc, ty, d)
         if ty[0] == 'R': return self.exprR(sc, ty, d)
+        if ty[0] == 'S': return self.exprS(sc, ty, d)
         return self.exprFn(sc, ty, d, as_arg=True)
+
+    def wide_self(self, sc, ty):
+        """`self` at the (wide) return type of the running function, when that is ty"""
+        if getattr(sc, 'self_ty', None) == ty and ty != F and sc.state_ok and self.rng.chance(1, 3):
+            self.mark_state(sc)
+            if self.has_tuple(ty):
+                # R9: the real type checker gives `self` its type too late for a tuple projection (`self.0`, `let v = self  v.0`
+                # are rejected even with a return-type annotation): take it apart by a pattern and build it again
+                pat, back = self.full_pattern(ty)
+                return ('let', pat, ('selfs', self.shape_of(ty)), back)
+            return ('selfs', self.shape_of(ty))
+        return None
+
+    def has_tuple(self, t):
+        """a tuple or a record (the same holds for `self.f`: the field constraint arrives before the record type)"""
+        return t != F and t[0] in ('T', 'R')
+
+    def full_pattern(self, t):
+        """(pattern binding every number / sum component of a value of type t, expression that builds the value again)"""
+        if t == F or t[0] == 'S':
+            x = self.fresh()
+            # `+ 0.0`: a pattern-bound variable used directly as a component of the result leaks an address on WASM (finding W12)
+            return ('pv', x), (('bin', 'add', ('var', x), ('lit', 0)) if t == F else ('var', x))
+        if t[0] == 'T':
+            parts = [self.full_pattern(x) for x in t[1]]
+            return ('pt', [q for q, _ in parts]), ('tup', [e for _, e in parts])
+        parts = [(f, self.full_pattern(x)) for f, x in t[1]]
+        return ('pr', [(f, q) for f, (q, _) in parts]), ('rec', [(f, e) for f, (_, e) in parts])
+
+    def closure_call(self, sc, ty, d):
+        """call of a closure-valued variable whose result has the (data) type ty"""
+        r = self.rng
+        if d <= 0 or not r.chance(1, 2): return None
+        cands = [v for v in sc.vars if isinstance(v.ty, tuple) and v.ty[0] == 'Fn' and v.ty[2] == ty and v in self.closure_vars(sc, v.ty)]
+        if not cands: return None
+        v = r.choice(cands)
+        self.note_use(sc, v)
+        return ('app', ('var', v.id), self.args_for(sc, v.ty[1], d - 1))
+
+    def exprS(self, sc, ty, d):
+        r = self.rng
+        w = self.wide_self(sc, ty)
+        if w is not None: return w
+        vs = self.vars_of(sc, ty)
+        if vs and r.chance(1, 3):
+            v = r.choice(vs)
+            self.note_use(sc, v)
+            return ('var', v.id)
+        fs = self.callable_funs(sc, ty)
+        if fs and d > 0 and r.chance(1, 3):
+            return self.call_fun(sc, r.choice(fs), d)
+        cl = self.closure_call(sc, ty, d)
+        if cl is not None: return cl
+        if d > 1 and r.chance(1, 6):
+            return ('if', self.exprF(sc, d - 1), self.exprS(sc, ty, d - 1), self.exprS(sc, ty, d - 1))
+        pay = self.sumtys[ty[1]]
+        tag = r.below(len(pay))
+        return ('con', ty[1], tag, None if pay[tag] is None else self.expr(sc, pay[tag], d - 1))
+
+    # ---- match ---------------------------------------------------------------------------------------------
+    def payload_pat(self, sc, t, vs, in_tuple=False, nested=False):
+        """binding pattern for a payload of type t (variables / `_` / tuples of them); appends the new Vars to vs.
+        in_tuple: the constructor pattern is a component of a tuple pattern: R10 (no capture) and no nested tuple pattern with
+        variables (finding M5: the decision tree binds them to the wrong component)"""
+        r = self.rng
+        if isinstance(t, tuple) and t[0] == 'T' and r.chance(3, 4) and not (in_tuple and nested):
+            return ('pt', [self.payload_pat(sc, x, vs, in_tuple, True) for x in t[1]])
+        if r.chance(1, 6) or (in_tuple and nested and isinstance(t, tuple)):
+            return ('pw',)
+        x = self.fresh()
+        v = Var(x, t, 'local', sc.depth)
+        v.no_capture = in_tuple
+        vs.append(v)
+        return ('pv', x)
+
+    def cell_pat(self, sc, t, vs, wild=(1, 3)):
+        """one component of a tuple pattern / a scalar arm pattern for a scrutinee component of type t"""
+        r = self.rng
+        if r.chance(*wild):
+            return ('mw',)
+        if t == F:
+            return ('ml', r.range(0, 3))
+        pay = self.sumtys[t[1]]
+        tag = r.below(len(pay))
+        return ('mc', t[1], tag, None if pay[tag] is None else self.payload_pat(sc, pay[tag], vs, in_tuple=True))
+
+    def arm_body(self, sc, vs, d, stateless):
+        sub = sc.child()
+        sub.parent = sc
+        if stateless:
+            sub.state_ok = False
+            sub.lam_state_ok = False
+        sub.vars = list(sc.vars) + vs
+        b = self.exprF(sub, d)
+        sc.used_state = sc.used_state or sub.used_state
+        sc.touched_mut = sc.touched_mut or sub.touched_mut
+        return b
+
+    def matchF(self, sc, d):
+        """a match expression of type float"""
+        r = self.rng
+        kind = r.below(3) if self.sumtys else r.choice([0, 0, 2])
+        free = r.chance(1, 10)                 # leave the arms as generated (classes M1 / M2 / M3)
+        for attempt in range(4):
+            binders = []
+            if kind == 0:
+                scrut = r.choice([self.leafF(sc), self.exprF(sc, d - 1), ('bin', 'sub', ('now',), ('lit', r.range(0, 3)))])
+                pats = [('ml', k) for k in (r.choice([[0], [0, 1], [1, 2], [0, 1, 2], [2, 0], [1, 3, 0]]))]
+                pats.append(('mw',))
+                if free and r.chance(1, 2):
+                    pats.insert(r.below(len(pats)), r.choice([('mw',), ('ml', r.range(0, 2))]))
+                binders = [[] for _ in pats]
+                ncols = None
+            elif kind == 1:
+                ty = self.sum_ty()
+                scrut = self.exprS(sc, ty, d - 1)
+                pay = self.sumtys[ty[1]]
+                tags = list(range(len(pay)))
+                for i in range(len(tags) - 1, 0, -1):
+                    j = r.below(i + 1); tags[i], tags[j] = tags[j], tags[i]
+                if r.chance(1, 2):
+                    tags = tags[:r.range(1, len(tags))]
+                    wild = True
+                else:
+                    wild = r.chance(1, 8)
+                pats = []
+                for tg in tags:
+                    vs = []
+                    pats.append(('mc', ty[1], tg, None if pay[tg] is None else self.payload_pat(sc, pay[tg], vs)))
+                    binders.append(vs)
+                if wild:
+                    pats.append(('mw',)); binders.append([])
+                if free and r.chance(1, 2):
+                    k = r.below(len(pats))
+                    vs = []
+                    tg = r.below(len(pay))
+                    pats.insert(k, r.choice([('mw',), ('mc', ty[1], tg, None if pay[tg] is None else self.payload_pat(sc, pay[tg], vs))]))
+                    binders.insert(k, vs if pats[k][0] == 'mc' else [])
+                ncols = None
+            else:
+                ncols = r.choice([2, 2, 3])
+                ctys = [self.sum_ty() if (self.sumtys and r.chance(1, 3)) else F for _ in range(ncols)]
+                scrut = ('tup', [self.expr(sc, t, d - 1) if t != F else r.choice([self.leafF(sc), self.exprF(sc, d - 1), ('now',)]) for t in ctys])
+                pats = []
+                for _ in range(r.choice([1, 2, 2, 3, 4])):
+                    vs = []
+                    pats.append(('mt', [self.cell_pat(sc, t, vs) for t in ctys]))
+                    binders.append(vs)
+                pats.append(('mw',)); binders.append([])
+            sel = match_selection(pats, self.sumtys, ncols)
+            if free or (sel['first_match_everywhere'] and not sel['no_arm']):
+                break
+        else:
+            pats, binders = [('mw',)], [[]]
+            sel = match_selection(pats, self.sumtys, ncols)
+        arms = []
+        for i, (m, vs) in enumerate(zip(pats, binders)):
+            arms.append((m, self.arm_body(sc, vs, d - 1, stateless=(sel['copies'][i] != 1 and not free))))
+        return ('match', scrut, arms)
+
 
     def args_for(self, sc, ptys, d):
         return [self.arg(sc, t, d) for t in ptys]
@@ -247,6 +458,8 @@ class XGen:
                 if f.stateful: self.mark_state(sc)
                 inner = ('app', ('var', f.id), self.args_for(sc, f.ptys, d - 1))
                 return ('app', inner, self.args_for(sc, f.rty[1], d - 1))
+        if c < 20 and d > 0 and self.ext:
+            return self.matchF(sc, d)
         if c < 22:
             return self.blockF(sc, d)
         if c < 24:
@@ -273,6 +486,8 @@ class XGen:
 
     def exprT(self, sc, ty, d):
         r = self.rng
+        w = self.wide_self(sc, ty)
+        if w is not None: return w
         vs = self.vars_of(sc, ty)
         if vs and r.chance(1, 3):
             v = r.choice(vs)
@@ -281,12 +496,16 @@ class XGen:
         fs = self.callable_funs(sc, ty)
         if fs and d > 0 and r.chance(1, 3):
             return self.call_fun(sc, r.choice(fs), d)
+        cl = self.closure_call(sc, ty, d)
+        if cl is not None: return cl
         if d > 1 and r.chance(1, 8):
             return ('if', self.exprF(sc, d - 1), self.exprT(sc, ty, d - 1), self.exprT(sc, ty, d - 1))
         return ('tup', [self.expr(sc, t, d - 1) for t in ty[1]])
 
     def exprR(self, sc, ty, d):
         r = self.rng
+        w = self.wide_self(sc, ty)
+        if w is not None: return w
         vs = self.vars_of(sc, ty)
         if vs and r.chance(1, 3):
             v = r.choice(vs)
@@ -295,6 +514,8 @@ class XGen:
         fs = self.callable_funs(sc, ty)
         if fs and d > 0 and r.chance(1, 3):
             return self.call_fun(sc, r.choice(fs), d)
+        cl = self.closure_call(sc, ty, d)
+        if cl is not None: return cl
         return ('rec', [(f, self.expr(sc, t, d - 1)) for f, t in ty[1]])
 
     def exprFn(self, sc, fty, d, as_arg=False, no_stateful_name=False):
@@ -339,7 +560,8 @@ class XGen:
         """|params| body of type fty; returns (lambda, mentions-an-assigned-local-of-an-enclosing-frame)"""
         params = [(self.fresh(), t) for t in fty[1]]
         st = sc.lam_state_ok if force_state is None else force_state
-        body_sc = sc.child(depth=sc.depth + 1, self_ok=(fty[2] == F), state_ok=st, used_state=False, touched_mut=False)
+        body_sc = sc.child(depth=sc.depth + 1, self_ok=(fty[2] == F), state_ok=st, used_state=False, touched_mut=False,
+                           self_ty=(fty[2] if (is_data(fty[2]) and (self.ext or fty[2] == F)) else None))
         for x, t in params:
             body_sc.vars.append(Var(x, t, 'param', body_sc.depth))
         body = self.stmts(body_sc, fty[2], max(0, d), frame_is_lambda=True)
@@ -354,7 +576,8 @@ class XGen:
 
     def captures_local(self, lam, sc):
         """does the lambda mention a non-global variable of the enclosing scopes?"""
-        loc = {v.id for v in sc.vars if v.kind != 'global'}
+        # a local bound to a capture-free lambda is a function constant for the compiler too: mentioning it is no capture
+        loc = {v.id for v in sc.vars if v.kind != 'global' and not getattr(v, 'fun_const', False)}
         for x in subexprs(lam):
             if x[0] == 'var' and x[1] in loc: return True
             if x[0] == 'asg' and x[1] in loc: return True
@@ -386,6 +609,7 @@ class XGen:
                 e, _ = self.lam2(sc2, ty, d, force_state=False)
             x = self.fresh()
             v = Var(x, ty, 'local', sc.depth)
+            v.fun_const = e[0] == 'lam' and not self.captures_local(e, sc)
             sc.vars.append(v)
             return [v], (('pv', x), e)
         if isinstance(ty, tuple) and ty[0] == 'Fn':
@@ -407,6 +631,7 @@ class XGen:
             sc.touched_mut = before
             x = self.fresh()
             v = Var(x, ty, 'global' if sc.phase == 'global' and sc.depth == 0 else 'local', sc.depth, tainted=touched)
+            v.fun_const = e[0] == 'lam' and not self.captures_local(e, sc)
             sc.vars.append(v)
             return [v], (('pv', x), e)
         e = self.expr(sc, ty, d)
@@ -447,6 +672,17 @@ class XGen:
                 vs.append(Var(x, t, kind, sc.depth, stateful=isinstance(t, tuple) and t[0] == 'Fn'))
         return ('pr', fps), vs
 
+    def data_pattern(self, sc, t):
+        """a pattern that takes a data value apart down to its numbers / sum values (tuples are never bound whole: R9)"""
+        if t == F or t[0] == 'S':
+            if self.rng.chance(1, 8): return ('pw',), []
+            x = self.fresh()
+            return ('pv', x), [Var(x, t, 'local', sc.depth)]
+        parts = [self.data_pattern(sc, x) for x in (t[1] if t[0] == 'T' else [x for _, x in t[1]])]
+        vs = [v for _, l in parts for v in l]
+        if t[0] == 'T': return ('pt', [q for q, _ in parts]), vs
+        return ('pr', [(f, q) for (f, _), (q, _) in zip(t[1], parts)]), vs
+
     def assign_stmt(self, sc, d):
         """x = e for an assignable variable in reach (R1, R2), or None"""
         cands = [v for v in sc.vars if v.ty == F and (
@@ -462,6 +698,16 @@ class XGen:
         """body of a function / lambda: lets, assignments, expression statements, then the result of type rty"""
         r = self.rng
         items = []
+        st = getattr(sc, 'self_ty', None)
+        if st is not None and st != F and sc.state_ok and st == rty and r.chance(2, 3):
+            self.mark_state(sc)
+            if self.has_tuple(st):
+                pat, vs = self.data_pattern(sc, st)
+            else:
+                x = self.fresh()
+                pat, vs = ('pv', x), [Var(x, st, 'local', sc.depth)]
+            sc.vars.extend(vs)
+            items.append(('let', pat, ('selfs', self.shape_of(st))))
         n = n_stmts if n_stmts is not None else r.choice([0, 0, 1, 1, 2, 3])
         for _ in range(n):
             c = r.below(6)
@@ -525,6 +771,11 @@ class XGen:
                 elif nps >= 2: ptys.append(r.choice([T(F, F), R((0, F), (2, F))]))
                 else: ptys.append(F)
             rty = r.choice([F, F, F, F, T(F, F), R((1, F), (3, F))])
+            if self.ext and r.chance(1, 5):
+                rty = r.choice([T(F, F, F), T(F, T(F, F)), R((0, F), (2, T(F, F)))] + ([self.sum_ty(), self.sum_ty(), T(F, self.sum_ty())] if self.sumtys else []))
+            for i in range(len(ptys)):
+                if self.sumtys and r.chance(1, 6):
+                    ptys[i] = self.sum_ty()
         pids = [self.fresh() for _ in ptys]
         # defaults only on float parameters of functions with >= 2 parameters, at least one parameter without default
         defaults = [False] * len(ptys)
@@ -539,7 +790,8 @@ class XGen:
                     else:
                         dvals[i] = ('lit', r.range(-2, 9))
         body_sc = sc_global.child(depth=0, self_ok=(role == 'runtime' and rty == F), state_ok=(role == 'runtime'),
-                                  lam_state_ok=(role == 'maker') or self.dyn, phase='fun', used_state=False, touched_mut=False)
+                                  lam_state_ok=(role == 'maker') or self.dyn, phase='fun', used_state=False, touched_mut=False,
+                                  self_ty=(rty if role == 'runtime' and is_data(rty) and (self.ext or rty == F) else None))
         body_sc.vars = [v for v in sc_global.vars if v.kind == 'global']
         for x, t in zip(pids, ptys):
             body_sc.vars.append(Var(x, t, 'param', 0, stateful=isinstance(t, tuple) and t[0] == 'Fn'))
@@ -548,12 +800,16 @@ class XGen:
         f = Fun(name, ptys, rty, body_sc.used_state, defaults, pids, role)
         if role == 'runtime' and rty == F and all(t == F for t in ptys) and len(ptys) <= 2 and not any(defaults):
             self.known_sigs = getattr(self, 'known_sigs', []) + [Fn(ptys, F)]
-        return f, ('fun', name, params, body, None)
+        ret = rty if (self.ext and is_data(rty) and rty != F and (body_sc.used_state or r.chance(1, 2))) else None
+        return f, ('fun', name, params, body, ret)
 
     def program(self):
         r = self.rng
         g = Scope([], [], 0, False, False, True, 'global')
         decls = []
+        if self.ext and r.chance(1, 2):
+            for _ in range(r.choice([1, 1, 2])):
+                self.declare_sum()
         n_decl = r.choice([2, 3, 4, 5, 6])
         for _ in range(n_decl):
             c = r.below(10)
@@ -604,22 +860,137 @@ class XGen:
                 if a is not None:
                     lets.append((('pw',), a))
         outs = [self.exprF(dsp, r.range(1, self.depth)) for _ in range(r.choice([1, 1, 2, 2, 3]))]
-        return {"globals": decls, "inputs": inputs, "lets": lets, "outs": outs}
+        return {"globals": decls, "inputs": inputs, "lets": lets, "outs": outs, "types": sorted(self.sumtys.items())}
 
 
 def gen_inputs(rng, n, k):
     return [[rng.range(-4, 5) for _ in range(k)] for _ in range(n)]
 
 
-def gen_cases(rng, n_cases, n_samples, tag="lmmx", dyn_share=8):
+def gen_cases(rng, n_cases, n_samples, tag="lmmx", dyn_share=8, ext=True):
     cases = []
     for i in range(n_cases):
         r = rng.fork((tag, i))
         dyn = bool(dyn_share) and i % dyn_share == dyn_share - 1
-        g = XGen(r, depth=r.choice([2, 3, 3, 4]), dyn=dyn)
+        g = XGen(r, depth=r.choice([2, 3, 3, 4]), dyn=dyn, ext=ext)
         p = g.program()
         if i % 8 != 5:
             p = avoid_proj_class(p)     # 1 program in 8 keeps projections in the positions of class PROJ
         rows = gen_inputs(r.fork("in"), n_samples, len(p['inputs']))
         cases.append((p, rows, dyn))
     return cases
+
+
+# ------------------------------------------------------------------------------------------------
+# lib/wideself.py made redundant: its generator's programs, translated into the Lmmx AST, so that the extracted reference
+# semantics can be shown to reproduce the streams of wideself's python evaluator (checks/lmmx_part.py wide_redundancy)
+# ------------------------------------------------------------------------------------------------
+def wide_case(rng, n_samples):
+    """the case wideself.gen_case(rng, n_samples) generates (same random draws, same source text — checked by the caller) together
+    with its translation: -> (case dict of wideself, Lmmx program)"""
+    import wideself as W
+    g = W.Gen(rng)
+    funs = [W.gen_wide_fun(g, i) for i in range(rng.range(1, 2))]
+    nsite = rng.range(1, 3)
+    dsp_binds = []
+    for ci in range(nsite):
+        f = rng.choice(funs)
+        arg = rng.choice([("now",), ("add", ("now",), ("lit", rng.range(1, 3))), ("lit", rng.range(1, 4)), ("mulk", ("now",), 2)])
+        guarded = rng.chance(1, 4)
+        dsp_binds.append(("c%d" % ci, f, arg, guarded, rng.range(0, 5)))
+    extra = g.stateful([], allow_if=False) if rng.chance(1, 2) else None
+    names = [b[0] for b in dsp_binds] + (["z"] if extra is not None else [])
+    two = len(names) >= 2 and rng.chance(1, 2)
+
+    # ---- translation ----
+    ids = {}
+    def vid(scope, name):
+        return ids.setdefault((scope, name), 1000 + len(ids))
+    CNT = 900
+    def tr(e, scope):
+        k = e[0]
+        if k == "lit": return ('lit', e[1])
+        if k == "var": return ('var', vid(scope, e[1]))
+        if k == "now": return ('now',)
+        if k == "add": return ('bin', 'add', tr(e[1], scope), tr(e[2], scope))
+        if k == "sub": return ('bin', 'sub', tr(e[1], scope), tr(e[2], scope))
+        if k == "mulk": return ('bin', 'mul', tr(e[1], scope), ('lit', e[2]))
+        if k == "gt": return ('bin', 'gt', tr(e[1], scope), ('lit', e[2]))
+        if k == "mem": return ('mem', tr(e[2], scope))
+        if k == "delay": return ('delay', e[2], tr(e[3], scope), ('lit', e[4]))
+        if k == "cnt": return ('app', ('var', CNT), [tr(e[2], scope)])
+        if k == "if": return ('if', tr(e[1], scope), tr(e[2], scope), tr(e[3], scope))
+        raise ValueError(e)
+    globals_ = [('fun', CNT, [(901, None, None)], ('bin', 'add', ('self',), ('var', 901)), None)]
+    types = []
+    fids = {}
+    for f in funs:
+        i, shape = f["i"], f["shape"]
+        red, w = 800 + 2 * i, 801 + 2 * i
+        fids[i] = (red, w)
+        sc = "w%d" % i
+        x = vid(sc, "x")
+        def lets(body):
+            for nm, e in reversed(f["binds"]):
+                body = ('let', ('pv', vid(sc, nm)), tr(e, sc), body)
+            return body
+        if shape == "sum":
+            tid = 700 + i
+            pay = ([None] if f["nullary_first"] else []) + ['F', ('T', ['F', 'F'])]
+            types.append((tid, pay))
+            o = 1 if f["nullary_first"] else 0
+            sh = ('ss', tid, [None if t is None else ('N' if t == 'F' else ('st', ['N', 'N'])) for t in pay])
+            rs = vid("red%d" % i, "s"); rv = vid("red%d" % i, "v"); rw = vid("red%d" % i, "w")
+            arms = ([(('mc', tid, 0, None), ('lit', 0))] if f["nullary_first"] else []) + \
+                   [(('mc', tid, o, ('pv', rv)), ('var', rv)),
+                    (('mc', tid, o + 1, ('pt', [('pv', rv), ('pv', rw)])), ('bin', 'add', ('bin', 'mul', ('var', rv), ('lit', 7)), ('var', rw)))]
+            globals_.append(('fun', red, [(rs, ('S', tid), None)], ('match', ('var', rs), arms), 'F'))
+            cond, va, vb = f["res"]
+            res = ('if', tr(cond, sc), ('con', tid, o + 1, ('tup', [tr(vb[0], sc), tr(vb[1], sc)])), ('con', tid, o, tr(va[0], sc)))
+            body = ('let', ('pv', vid(sc, "p")), ('app', ('var', red), [('selfs', sh)]), lets(res))
+            globals_.append(('fun', w, [(x, 'F', None)], body, ('S', tid)))
+            continue
+        comps = f["comps"]
+        cv = [vid(sc, c) for c in comps]
+        rvs = [vid("red%d" % i, c) for c in comps]
+        rp = vid("red%d" % i, "v")
+        if shape == "tuple":
+            rty = ('T', ['F'] * len(comps)); sh = ('st', ['N'] * len(comps))
+            pat = lambda vs: ('pt', [('pv', v) for v in vs])
+            mk = lambda es: ('tup', es)
+            weights = [k + 1 for k in range(len(comps))]
+        elif shape == "nested":
+            rty = ('T', ['F', ('T', ['F', 'F'])]); sh = ('st', ['N', ('st', ['N', 'N'])])
+            pat = lambda vs: ('pt', [('pv', vs[0]), ('pt', [('pv', vs[1]), ('pv', vs[2])])])
+            mk = lambda es: ('tup', [es[0], ('tup', [es[1], es[2]])])
+            weights = [1, 2, 3]
+        else:
+            fld = {c: FIELD_NAMES.index("fa") + k for k, c in enumerate(comps)}     # a0 a1 .. -> fa fb ..: alphabetical like a0 a1 ..
+            rty = ('R', [(fld[c], 'F') for c in comps]); sh = ('sr', [(fld[c], 'N') for c in comps])
+            pat = lambda vs: ('pr', [(fld[c], ('pv', v)) for c, v in zip(comps, vs)])
+            mk = lambda es: ('rec', [(fld[c], e) for c, e in zip(comps, es)])
+            weights = [k + 1 for k in range(len(comps))]
+        total = None
+        for v, wt in zip(rvs, weights):
+            t = ('var', v) if (shape == "nested" and wt == 1) else ('bin', 'mul', ('var', v), ('lit', wt))
+            total = t if total is None else ('bin', 'add', total, t)
+        globals_.append(('fun', red, [(rp, rty, None)], ('let', pat(rvs), ('var', rp), total), 'F'))
+        body = ('let', pat(cv), ('selfs', sh), lets(mk([tr(e, sc) for e in f["res"]])))
+        globals_.append(('fun', w, [(x, 'F', None)], body, rty))
+    lets_ = []
+    for nm, f, arg, guarded, thr in dsp_binds:
+        red, w = fids[f["i"]]
+        call = ('app', ('var', red), [('app', ('var', w), [tr(arg, "dsp")])])
+        if guarded:
+            call = ('if', ('bin', 'gt', ('now',), ('lit', thr)), call, ('bin', 'sub', ('lit', 0), ('lit', 1)))
+        lets_.append((('pv', vid("dsp", nm)), call))
+    if extra is not None:
+        lets_.append((('pv', vid("dsp", "z")), tr(extra, "dsp")))
+    def sumv(ns):
+        t = None
+        for n in ns:
+            t = ('var', vid("dsp", n)) if t is None else ('bin', 'add', t, ('var', vid("dsp", n)))
+        return t
+    outs = [('var', vid("dsp", names[0])), sumv(names[1:])] if two else [sumv(names)]
+    prog = {"globals": globals_, "inputs": [], "lets": lets_, "outs": outs, "types": types}
+    return prog
